@@ -211,6 +211,115 @@ def gen_case(rng, env, big=False):
             "queries": gen_queries(rng, pool, preds), "shape": "random"}
 
 
+# ---- hash ties: distinct facts of one predicate with equal Atom.Hash() (seed C19-3).
+# The hash of a constant is that of its payload, so the same payload under another type gives a
+# different constant with the same hash; list / pair / map hashes are compositional, and a few
+# shapes collide with numbers (0 = [] = fn:map() = {}, [1] = 65792).
+def hash_twins(t):
+    """Constants different from t that have t's hash (py_hash is the independent re-implementation)."""
+    k = t[0]
+    out = []
+    if k in ("name", "str", "bytes"):
+        v = t[1]
+        out = [("str", v), ("bytes", v)] + ([("name", v)] if T.name_ok(v) and T.name_valid(v) else [])
+        out = [x for x in out if x[0] != "str" or T.is_utf8(x[1])]
+    elif k in ("num", "time", "dur"):
+        v = t[1]
+        out = [("num", v), ("time", v), ("dur", v), ("f64", v & T.M64)]
+        if v == 0:
+            out += [("list", []), ("map", []), ("struct", [])]
+        if v == 65792:
+            out += [("list", [("num", 1)])]
+    elif k == "f64":
+        v = t[1] if t[1] <= T.MAX64 else t[1] - (1 << 64)
+        out = [("num", v), ("time", v), ("dur", v)]
+    elif k == "pair":
+        out = [("pair", a, t[2]) for a in hash_twins(t[1])] + [("pair", t[1], b) for b in hash_twins(t[2])]
+    elif k == "list":
+        if not t[1]:
+            out = [("num", 0), ("map", []), ("struct", []), ("dur", 0)]
+        else:
+            out = [("list", [a] + t[1][1:]) for a in hash_twins(t[1][0])] + [("list", t[1][:-1] + [a]) for a in hash_twins(t[1][-1])]
+            if t[1] == [("num", 1)]:
+                out.append(("num", 65792))
+    elif k in ("map", "struct"):
+        if not t[1]:
+            out = [("num", 0), ("list", []), ("map", []) if k == "struct" else ("struct", [])]
+        else:
+            (a, b) = t[1][0]
+            out = [(k, [(a, b2)] + t[1][1:]) for b2 in hash_twins(b)]
+    h = T.py_hash(t)
+    c = T.canon(t)
+    return [x for x in out if T.canon(x) != c and T.py_hash(x) == h]
+
+
+TIE_SEEDS = [("name", b"/a"), ("str", b"/a"), ("name", b"/foo/bar"), ("str", b"x y"), ("bytes", b"k"), ("num", 5), ("dur", 5), ("time", 5),
+             ("num", 0), ("list", []), ("num", 65792), ("list", [("num", 1)]), ("num", 1700000000000000000), ("f64", T.f64_bits(1.5)),
+             ("pair", ("name", b"/a"), ("num", 5)), ("list", [("str", b"/a"), ("num", 7)]), ("struct", [(("name", b"/k"), ("num", 5))]),
+             ("map", [(("str", b"k"), ("name", b"/v"))]), ("num", -3), ("str", b""), ("name", b"/a%41b")]
+
+
+def gen_tie_case(rng, env):
+    """A store in which several facts of one predicate share their Atom.Hash(). Deterministic writes of it
+    from differently ordered sources that keep such facts apart must give equal bytes (and the model's)."""
+    for _ in range(200):
+        pool, seen = [], set()
+
+        def add(t):
+            if not admissible(t, env):
+                return None
+            c = T.canon(t)
+            if c in seen:
+                return next(i for i, x in enumerate(pool) if T.canon(x) == c)
+            seen.add(c)
+            pool.append(t)
+            return len(pool) - 1
+        fams = []
+        for _ in range(rng.choice([1, 2, 2, 3])):
+            t = rng.choice(TIE_SEEDS) if rng.random() < 0.75 else T.gen_const(rng, rng.choice([1, 2]), 0.0)
+            tw = hash_twins(t)
+            rng.shuffle(tw)
+            ids = [i for i in (add(x) for x in [t] + tw[:rng.choice([1, 2, 3])]) if i is not None]
+            if len(ids) >= 2:
+                fams.append(ids)
+        for _ in range(rng.choice([0, 1, 2, 3])):
+            add(T.gen_scalar(rng, 0.0))
+        if not fams:
+            continue
+        preds, ties = [], 0
+        for pi in range(rng.choice([1, 1, 2, 3])):
+            sym = T.gen_pred(rng)
+            ar = rng.choice([1, 1, 2, 2, 3])
+            if any(p["sym"] == sym.hex() and p["arity"] == ar for p in preds):
+                continue
+            rows, rs = [], set()
+            for _ in range(rng.choice([1, 2, 2, 3])):
+                base = [rng.randrange(len(pool)) for _ in range(ar)]
+                fam = rng.choice(fams)
+                pos = rng.randrange(ar)
+                for m in rng.sample(fam, rng.choice([2, len(fam)])):        # the same row with a twin at one position
+                    r = list(base)
+                    r[pos] = m
+                    if tuple(r) not in rs:
+                        rs.add(tuple(r))
+                        rows.append(r)
+            if rng.random() < 0.5:
+                r = [rng.randrange(len(pool)) for _ in range(ar)]
+                if tuple(r) not in rs:
+                    rows.append(r)
+            rng.shuffle(rows)
+            hs = [T.atom_hash(sym, [pool[i] for i in r]) for r in rows]
+            ties += len(hs) - len(set(hs))
+            preds.append({"sym": sym.hex(), "arity": ar, "rows": rows})
+        if not ties or not preds:
+            continue
+        return {"consts": [T.to_json(t) for t in pool], "preds": preds, "preds_b": reorder(rng, preds),
+                "comp": rng.choice(["plain", "plain", "gzip", "zstd"]), "det": rng.random() < 0.85,
+                "source": "lazy" if rng.random() < 0.1 else "list", "target": "multiarray", "ties": ties,
+                "queries": gen_queries(rng, pool, preds, limit=6), "shape": "hash-ties"}
+    raise RuntimeError("could not generate a store with hash ties")
+
+
 def exhaustive_cases():
     """Every store over p/0 (not listed, listed empty, present), q/1 (every ordered
     subset of two constants), r/2 (every sequence of <= 2 distinct rows out of three),
@@ -295,8 +404,10 @@ def verdict(case, out):
     if case["det"]:
         no_empty = all(p["rows"] for p in case["preds"])
         for name, eq in sorted(out["det_equal"].items()):
-            if name != "list_b" and not no_empty:
+            if not name.startswith("list_") and not no_empty:
                 continue          # the in-memory stores do not list empty predicates
+            if case.get("ties") and not (name.startswith("list_") or name.startswith("multiarray_")):
+                continue          # hash-keyed stores conflate hash-equal atoms (F8): not a source for this set
             if not eq:
                 return "deterministic write from %s differs from the bytes written from order A" % name
     return None
@@ -352,7 +463,7 @@ def probes(ck, env):
             ck.known("N43 a constant whose printed form is 64 KiB or longer cannot be re-read (bufio.Scanner token limit)")
 
 
-def run_cases(ck, cases, tag):
+def run_cases(ck, cases, tag, fn="judge", nshards=16):
     ck.log("running %d cases on the Go side" % len(cases))
     outs = ck.run_go("c19", cases)
     ck.log("Go done")
@@ -371,7 +482,7 @@ def run_cases(ck, cases, tag):
         terms.append(cq_case(c, o["out"]))
         idxs.append(i)
     ck.log("evaluating the model on %d cases (%d KB of terms)" % (len(terms), sum(len(t) for t in terms) // 1024))
-    verdicts = ck.run_coq("C19", "judge", terms, shard=max(10, len(terms) // 16 + 1), tag=tag)
+    verdicts = ck.run_coq("C19", fn, terms, shard=max(10, len(terms) // nshards + 1), tag=tag)
     ck.log("model done")
     return outs, failed, list(zip(idxs, verdicts))
 
@@ -387,12 +498,12 @@ def run(ck):
     ck.log("harness built")
     rng = ck.rng
     env = get_env(ck)
-    cases = []
+    cases, tcorpus = [], []
     for path in sorted(glob.glob(os.path.join(CORPUS, "*.json"))):
         c = json.load(open(path))
         c = c.get("case", c)
         c["shape"] = "corpus"
-        cases.append(c)
+        (tcorpus if c.get("ties") else cases).append(c)
     ncorpus = len(cases)
     for i in range(int(os.environ.get("C19_N", 0)) or ck.n(200, 2500)):      # C19_N: smaller runs for experiments
         cases.append(gen_case(rng, env, big=(i % 10 == 0)))
@@ -401,7 +512,19 @@ def run(ck):
     if not ck.quick:
         cases += list(exhaustive_cases())
         exhaustive = True
-    outs, failed, judged = run_cases(ck, cases, "cases")
+    # hash ties: the deterministic-bytes clause on stores whose facts share hashes (own judge: the key
+    # pair must be injective - the hypothesis of deterministic_bytes - and a tie must be present)
+    tcases = tcorpus + [gen_tie_case(rng, env) for _ in range(int(os.environ.get("C19_NT", 0)) or ck.n(70, 900))]
+    nmain = len(cases)
+    outs, failed, judged = run_cases(ck, cases, "cases", nshards=ck.n(12, 16))
+    outs_t, failed_t, judged_t = run_cases(ck, tcases, "ties", fn="judge_ties", nshards=ck.n(3, 12))
+    cases = cases + tcases
+    outs = outs + outs_t
+    failed = failed + [(i + nmain, why) for i, why in failed_t]
+    judged = judged + [(i + nmain, v) for i, v in judged_t]
+    STAGE_T = dict(STAGE)
+    STAGE_T[5] = "sort key (Atom.Hash, Atom.String) not injective on the facts of a predicate: outside the hypothesis of deterministic_bytes"
+    STAGE_T[6] = "no hash tie in a case generated to contain one (checks/term_common.py hash differs from Atom.Hash?)"
     reported = set()
     for i, why in failed:
         if len(ck.violations) >= 5:
@@ -417,8 +540,9 @@ def run(ck):
         if i in reported or len(ck.violations) >= 5:
             continue
         rep = {"property": "C19", "case": cases[i], "impl": outs[i], "judge_code": v,
-               "stage": STAGE.get(v, "lazy GetFacts query %d" % (v - 10)),
+               "stage": STAGE_T.get(v, "lazy GetFacts query %d" % (v - 10)),
                "model_trace": ck.coq_show("C19", "trace " + cq_case(cases[i], outs[i]["out"]))[:6000],
+               "judge": "judge_ties" if cases[i].get("ties") else "judge",
                "kind": "correspondence model/implementation broken (the implementation's output still satisfies the property on this input)",
                "no_longer_checks": "correspondence Run.C19.judge: coq/Serde/SimpleColumn.v vs factstore/simplecolumn.go"}
         ck.violation(rep, "no-failing-input-found")
@@ -435,19 +559,24 @@ def run(ck):
             k = "arity%d%s" % (p["arity"], "" if p["rows"] else "-empty")
             ar[k] = ar.get(k, 0) + 1
         nq += len(c["queries"])
+    tie_cov = {"cases": len(tcases), "tied_fact_pairs": sum(c.get("ties", 0) for c in tcases),
+               "deterministic": sum(1 for c in tcases if c["det"]),
+               "sources_compared": "order A, order B, order A reversed (slice-backed ReadOnlyFactStore), MultiIndexedArrayInMemoryStore filled in order A and in order B; "
+                                   "the hash-keyed stores are left out (F8)",
+               "target_store": "MultiIndexedArrayInMemoryStore"}
     pct = sum(1 for c in cases for t in c["consts"] if t[0] == "name" and b"%" in bytes.fromhex(t[1]))
     distinct = len(set(json.dumps([c["consts"], c["preds"]], sort_keys=True) for c in cases
                        if sum(len(p["rows"]) for p in c["preds"]) >= 2))
     cov = {"evaluations": len(cases), "distinct_nontrivial": distinct,
            "rule": "stores written by the real SimpleColumn.WriteTo and read back by ReadInto (recording store and "
-                   "SimpleInMemoryStore) and by the lazy SimpleColumnStore (corpus %d, random %d, exhaustive block %d); "
-                   "non-trivial = at least two facts; distinct by (constants, predicates, rows)" % (ncorpus, nrandom, len(cases) - ncorpus - nrandom),
+                   "SimpleInMemoryStore) and by the lazy SimpleColumnStore (corpus %d, random %d, hash-tie stream %d, exhaustive block %d); "
+                   "non-trivial = at least two facts; distinct by (constants, predicates, rows)" % (ncorpus, nrandom, len(tcases), len(cases) - ncorpus - nrandom - len(tcases)),
            "exhaustive": exhaustive,
            "exhaustive_scope": "every store over p/0 {unlisted, empty, present} x q/1 (ordered subsets of 2 constants) x r/2 "
                                "(sequences of <=2 of 3 rows) x every listing order x deterministic or not x every query pattern "
                                "over {variable, a, b}; constants a = /n%41 (name with '%'), b = \"/s+\"" if exhaustive else "",
            "shapes": shapes, "configurations": comps, "constant_kinds": kinds, "predicates": ar,
-           "lazy_queries": nq, "names_with_percent": pct, "environment": env["raw"],
+           "lazy_queries": nq, "names_with_percent": pct, "environment": env["raw"], "hash_ties": tie_cov,
            "model_disagreements": disagreements, "property_failures": len(failed),
            "samples": [{"consts": cases[ncorpus]["consts"][:4], "preds": cases[ncorpus]["preds"][:3]},
                        {"consts": cases[-1]["consts"][:4], "preds": cases[-1]["preds"][:3]}]}
@@ -457,7 +586,8 @@ def run(ck):
         "on the Go side); that parse(print c) = c is the subject of C08/C09 - the main stream avoids their open findings "
         "(N18 leading minus, F5 CR, F6 integral floats, N14 sub-second times, N9 duplicate keys) unless the tree under test has them repaired",
         "gzip / zstd are identity laws in the theorems; the harness checks decompress(compress(file)) == file on every case",
-        "main stream: lexer-valid names, printed constants shorter than 64 KiB, no two hash-equal atoms under one predicate (F8)"])
+        "main stream: lexer-valid names, printed constants shorter than 64 KiB, no two hash-equal atoms under one predicate (F8); "
+        "the hash-tie stream holds such atoms on purpose and uses only sources and targets that compare atoms (slice-backed store, MultiIndexedArrayInMemoryStore, the lazy store)"])
 
 
 def replay(ck, path):
@@ -473,7 +603,7 @@ def replay(ck, path):
     print("replay: property verdict on the implementation's output: %s" % (v or "holds"))
     j = 0
     if not out["out"].get("write_err"):
-        j = ck.run_coq("C19", "judge", [cq_case(case, out["out"])])[0]
+        j = ck.run_coq("C19", "judge_ties" if case.get("ties") else "judge", [cq_case(case, out["out"])])[0]
         print("replay: model comparison code = %d" % j)
     if v or j:
         print("VIOLATION property=C19 replay=%s" % path)
